@@ -2,7 +2,7 @@
 
 Schedule-level completeness is not decided; claimed are the structural clauses.
 """
-from ..core import (AnalysisBroken, Inliner, canon, strip, last_member, must_pass, relpath, norm_cond, walk, forward)
+from ..core import (names_of, same_value, AnalysisBroken, Inliner, canon, strip, last_member, must_pass, relpath, norm_cond, walk, forward)
 from ..analyses import (is_call, holding, path_to, describe, exits_of, callback_kind, loops, innermost_loop,
                         locksets, held, force_edges, prune_infeasible, list_empty_test, must_pass_from_block,
                         atoms_reading)
